@@ -83,6 +83,7 @@ class _SymWeights:
 class Ctx:
     def __init__(self, symbolic, weights_mode='distinct', weights=None):
         self.symbolic = symbolic
+        self.pending_violation = None   # first violation raised (kept in case the code under test swallows or replaces it)
         self.goals = set()      # decided by branch outcomes: hold for every value of the path
         self.soft_goals = set() # satisfiable on the path (solver-checked), not necessarily in every model
         self.counters = {'events': 0, 'checks': 0, 'ops': 0}
@@ -121,8 +122,13 @@ class Ctx:
             return {k: self._z(x) for k, x in v.items()}
         return v
 
-    def fail(self, label, detail=''):
+    def _raise(self, label, detail):
+        if self.pending_violation is None:
+            self.pending_violation = (label, detail)
         raise PropertyViolation(label, detail)
+
+    def fail(self, label, detail=''):
+        self._raise(label, detail)
 
     def _is_sym(self, c):
         if not self.symbolic:
@@ -144,13 +150,13 @@ class Ctx:
                 if space.is_possible(neg):
                     if not z3.is_true(neg):
                         space.add(neg)      # commit: the model of this path is now a counterexample
-                    raise PropertyViolation(label, detail)
+                    self._raise(label, detail)
             return
         if hasattr(cond, '__ch_realize__'):
             cond = self.z(cond)
             return self.require(cond, label, detail)
         if not cond:
-            raise PropertyViolation(label, detail)
+            self._raise(label, detail)
 
     def possible(self, cond):
         """Can ``cond`` hold on the current path?  (no fork)"""
